@@ -1,29 +1,45 @@
 """C17 — U1000 verdicts are order-independent, monotone, merged over variants.
 
-Lean (Verif/C17/{Build,Model,Theorems}.lean, on the graph of Verif/C07/Graph.lean):
+Lean (Verif/C17/{Build,Model,Merge,Rule65,Theorems,TheoremsMerge,TheoremsRule65}.lean, on the
+graph of Verif/C07/Graph.lean):
   * the verdict of a node is a function of root-reachability over `uses` and of the
     "below an unseen owner" relation only (results_perm_invariant, for all graphs and all
     renumberings / edge orders / multiplicities),
   * more use edges never shrink Used (used_mono_embed, add_uses_monotone),
   * the graph builder (graph.node/newNode/addEdge/addUse/addOwned/use/see) as a fold over an
     event list: the verdict of every object depends only on the SET of events
-    (build_perm_invariant), and appending use events keeps Used objects Used
-    (build_add_use_monotone),
-  * the variant merge of lintcmd.lint (reported_iff, merge_order_independent).
+    (build_perm_invariant), and appending use events keeps Used objects Used,
+  * the variant merge of lintcmd.lint (reported_iff, merge_order_independent),
+  * the GRAPH-LEVEL merge `SerializedGraph.Merge` (nodes identified by path, else by position;
+    edge lists unioned): one node per position, merge-then-colour = colouring of the union of
+    the variants' use relations on positions (gmerge_used_iff), hence commutative / associative /
+    idempotent up to node identity (gmerge_set_invariant), an object used in any variant is used
+    in the merge, a node not Used in the merge is Used in no variant,
+  * rule 6.5 of graph.namedType (`hasExportedField`, visited set pre-seeded with the declaring
+    struct, early returns) is a reachability fact of the struct table (rule65_iff), independent of
+    field and declaration order; negative examples for the memoised variant and for the
+    "path only" lookup.
 Tie X (checked on every run against the current tree):
   * harness/cmd/c17run runs the REAL unused.Analyzer in-process; the dumped graph
     (unused.Debug) is fed to the compiled model, whose Results must equal the colours of the
     real code; for every permuted / repeated / extended copy of a package the executable
     hypotheses of the theorems (isomorphism resp. embedding of the REAL graphs, well-formedness)
-    are evaluated by the Lean driver (`iso`, `embed`, proved sound: iso_check_sound,
-    embed_check_sound);
+    are evaluated by the Lean driver (`iso`, `embed`, proved sound);
+  * the struct table and the embedded fields of every struct declaration are read off go/types;
+    the model's rule-6.5 verdict must match the use edge type -> embedded field of the real graph;
+  * the real unused.Graph of every variant of a package (plain, with in-package tests, external
+    test package) is merged in-process by the REAL SerializedGraph.Merge in every order (and
+    repeatedly); the model's mergeAll of the same raw graphs must be that graph node for node and
+    edge for edge, with the same colours; the theorems' hypotheses are probed on the real graphs;
   * the REAL staticcheck binary runs on a generated module with in-package and external
     tests (-debug.unused-graph gives the graph of every variant the runner analysed); the
     model's merge of the model's Results of those graphs must equal the U1000 lines printed.
 Oracle (the statement itself, on the real code's outputs): permuting files / top-level
-declarations / repeating the run leaves the set of reported objects unchanged; adding one
-reference from a used function turns no used object into a non-used one; an object
-reported with tests analysed is used in no variant of its package.
+declarations / repeating the run leaves the set of reported objects unchanged (small programs
+around cycles of embedded structs are run in EVERY order of their declarations); adding one
+reference from a used function turns no used object into a non-used one; an object reported
+with tests analysed — by `staticcheck`, or by the merged graph — is used in no variant of its
+package, whatever the order in which the variants are merged.
 """
 import json
 import os
@@ -34,7 +50,7 @@ from concurrent.futures import ThreadPoolExecutor
 
 import vlib
 
-MODULES = ["Verif.C17.Theorems"]
+MODULES = ["Verif.C17.Theorems", "Verif.C17.TheoremsMerge", "Verif.C17.TheoremsRule65"]
 THEOREMS = [
     "Verif.C17.results_perm_invariant",
     "Verif.C17.results_edge_order_invariant",
@@ -53,6 +69,19 @@ THEOREMS = [
     "Verif.C17.reported_iff",
     "Verif.C17.reported_only_if_unused_everywhere",
     "Verif.C17.merge_order_independent",
+    "Verif.C17.gmerge_pos_unique",
+    "Verif.C17.gmerge_used_iff",
+    "Verif.C17.gmerge_usedAt_iff",
+    "Verif.C17.unionUsed_iff",
+    "Verif.C17.gmerge_set_invariant",
+    "Verif.C17.gmerge_perm_invariant",
+    "Verif.C17.gmerge_idempotent",
+    "Verif.C17.gmerge_used_of_variant_used",
+    "Verif.C17.gmerge_reported_only_if_unused_everywhere",
+    "Verif.C17.rule65_iff",
+    "Verif.C17.rule65_field_order_invariant",
+    "Verif.C17.rule65_calls_perm",
+    "Verif.C17.rule65Run_spec",
 ]
 CORPUS = os.path.join(vlib.VERIF, "corpus", "C17")
 TESTDATA = "unused/testdata/src/example.com"
@@ -683,11 +712,45 @@ class PkgGen:
 
 
 
+class MiniGen:
+    """A package of at most five declarations around a cycle of embedded structs: small
+    enough to run the real analyzer on EVERY order of its declarations."""
+
+    def __init__(self, rng, pkg, fixed=None):
+        self.r, self.pkg, self.n, self.hist = rng, pkg, 0, {}
+        if fixed is not None:
+            self.decls = list(fixed)
+            self.hit("fixed_shape")
+        else:
+            self.decls = rng.shuffle(embed_cycle_decls(rng, self.uid, self.hit, max_decls=5))
+        self.funcs = self.vars = self.consts = self.structs = self.ifaces = self.nints = self.aliases = []
+
+    def uid(self):
+        self.n += 1
+        return self.n
+
+    def hit(self, k):
+        self.hist[k] = self.hist.get(k, 0) + 1
+
+
+MINI_FIXED = [
+    # the shape of seeded/C17-1-3: p before r caches q=false while the cycle is cut at p
+    ["type p struct {\n\t*q\n\tX int\n}", "type q struct {\n\t*p\n}", "type r struct {\n\tq\n}", "type s struct {\n\tr\n}",
+     "func Use() {\n\tvar a p\n\t_ = a.q\n\tvar b q\n\t_ = b.p\n\t_ = r{}\n\t_ = s{}\n}"],
+    # 3-cycle, exported field behind an embedded unexported leaf
+    ["type l struct {\n\tY int\n}", "type a struct {\n\t*b\n\tl\n}", "type b struct {\n\t*c\n}", "type c struct {\n\t*a\n}",
+     "type d struct {\n\tc\n}"],
+]
+
+
 class Gen17(PkgGen):
     """C07's generator plus shapes that matter for order dependence: //lint:ignore U1000
     (entry() iterates the g.objects map while adding edges), type switches with a bound
     variable (several objects at one position), chains of identical anonymous struct types
     (rule 11.1: 'de-duplicating struct types leads to order-dependent reports')."""
+
+    def embed_cycle(self):
+        self.decls += embed_cycle_decls(self.r, self.uid, self.hit)
 
     def build(self):
         PkgGen.build(self)
@@ -727,11 +790,72 @@ class Gen17(PkgGen):
                 self.decls.append("func %s() {\n%s}" % (nm(i), "".join("\t%s()\n" % c for c in calls)))
                 self.funcs.append(Func(nm(i), [], None))
             self.hit("deep_chain")
+        for _ in range(1 + r.below(2) if r.chance(2, 3) else 0):
+            self.embed_cycle()
         # //lint:ignore U1000 on some declarations
         for i, d in enumerate(self.decls):
             if d.startswith(("func ", "type ", "var ", "const ")) and r.chance(1, 14):
                 self.decls[i] = "//lint:ignore U1000 generated by the C17 check\n" + d
                 self.hit("lint_ignore")
+
+
+def embed_cycle_decls(r, uid, hit, max_decls=None):
+    """Mutually recursive embedded structs (2- and 3-cycles through pointers) for rule 6.5
+    ("structs use embedded structs that have exported fields, recursively"): an exported field
+    that is reachable only through embedded unexported structs, structs outside the cycle that
+    embed a member of it, and a function that mentions the types and selects SOME embedded fields
+    explicitly — the others are used only if rule 6.5 says so, whatever the declaration order.
+    Returns a list of one-declaration strings."""
+    k = uid()
+    n = 2 + r.below(2)
+    hit("embed_cycle_%d" % n)
+    cyc = ["cy%d_%d" % (k, i) for i in range(n)]
+    mode = r.below(5)
+    if max_decls is not None and n == 3 and mode == 1:
+        mode = 0
+    decls, leaf = [], None
+    if mode == 1:
+        leaf = "lf%d" % k
+        decls.append("type %s struct {\n\tY%d int\n\tz%d int\n}" % (leaf, k, k))
+        hit("embed_cycle_exported_via_leaf")
+    elif mode == 2:
+        hit("embed_cycle_without_exported_field")
+    holder = r.below(n)
+    for i, nm in enumerate(cyc):
+        body = ["\t*%s" % cyc[(i + 1) % n]]
+        if i == holder:
+            if mode in (0, 3, 4):
+                body.append("\tX%d_%d int" % (k, i))
+            elif mode == 1:
+                body.append("\t" + leaf)
+        if r.chance(1, 2):
+            body.append("\tf%d_%d int" % (k, i))
+        if r.chance(1, 2):
+            body.reverse()
+        decls.append("type %s struct {\n%s\n}" % (nm, "\n".join(body)))
+    outs = []
+    n_out = 1 + r.below(3)
+    if max_decls is not None:
+        n_out = max(1, min(n_out, max_decls - len(decls) - 1))
+    for j in range(n_out):
+        nm = "ou%d_%d" % (k, j)
+        base = r.choice(cyc + outs) if outs and r.chance(1, 2) else r.choice(cyc)
+        ptr = "*" if r.chance(1, 3) else ""
+        decls.append("type %s struct {\n\t%s%s\n}" % (nm, ptr, base))
+        outs.append(nm)
+        hit("embed_cycle_outsider")
+    body = []
+    for i, nm in enumerate(cyc):
+        if r.chance(1, 3):
+            body.append("\tvar a%d_%d %s\n\t_ = a%d_%d.%s\n" % (k, i, nm, k, i, cyc[(i + 1) % n]))
+            hit("embed_cycle_field_selected")
+        else:
+            body.append("\t_ = %s{}\n" % nm)
+    for nm in outs:
+        body.append("\t_ = %s{}\n" % nm if r.chance(2, 3) else "\t_ = new(%s)\n" % nm)
+    fn = ("UseCy%d" if r.chance(2, 3) else "useCy%d") % k
+    decls.append("func %s() {\n%s}" % (fn, "".join(body)))
+    return decls
 
 
 def render(pkg, decls, nfiles, names=None):
@@ -781,9 +905,14 @@ def run_jobs(ctx, binary, jobs, extra_env=None, nproc=8, timeout=1500, cwd=None)
     groups = {}
     for j in jobs:
         groups.setdefault("/".join(j["id"].split("/")[:2]), []).append(j)
+
+    def weight(js):
+        return sum(len(f["src"]) for j in js for f in (j.get("files") or [])) + \
+            sum(len(f["src"]) * (2 + len(j.get("orders") or [])) for j in js for v in (j.get("variants") or []) for f in v["files"])
+
     chunks = [[] for _ in range(nproc)]
-    for k, g in enumerate(sorted(groups.values(), key=lambda g: -sum(len(f["src"]) for j in g for f in j["files"]))):
-        min(chunks, key=lambda c: sum(len(f["src"]) for j in c for f in j["files"])).extend(g)
+    for k, g in enumerate(sorted(groups.values(), key=lambda g: -weight(g))):
+        min(chunks, key=weight).extend(g)
     env = vlib.go_env(extra_env or {})
 
     def one(chunk):
@@ -807,7 +936,44 @@ def run_jobs(ctx, binary, jobs, extra_env=None, nproc=8, timeout=1500, cwd=None)
 
 
 def job(jid, pkgpath, files):
-    return {"id": jid, "pkgpath": pkgpath, "files": [{"name": n, "src": s} for n, s in files]}
+    return {"id": jid, "pkgpath": pkgpath, "facts": True, "files": [{"name": n, "src": s} for n, s in files]}
+
+
+def r65_line(o):
+    """Lean `r65` input for the struct table / embedded fields the harness read off go/types;
+    returns (line, queries) or None when there is nothing to ask"""
+    qs = [f for f in (o.get("facts") or []) if f["u"] >= 0]
+    if not (o.get("facts") or []):
+        return None
+    if not qs or not o.get("structs"):
+        return "r65 1 -", []
+    return "r65 %d %s %s" % (len(o["structs"]), " ".join(o["structs"]), " ".join("%d.%d" % (f["st"], f["u"]) for f in qs)), qs
+
+
+def r65_compare(o, qs, bits):
+    """rule 6.5 predicted by the model vs. the use edge (type -> embedded field) of the REAL graph"""
+    idx = {}
+    for i, nd in enumerate(o.get("nodes") or []):
+        idx.setdefault((nd["k"], nd["n"], nd["b"], nd["l"], nd["c"]), i + 1)
+    uses = set(edges_of(o.get("uses")))
+    diffs, checked, pos = [], 0, 0
+    asked = {id(f): b for f, b in zip(qs, bits)}
+    for f in (o.get("facts") or []):
+        if f.get("exported") or f.get("host"):
+            continue
+        t = idx.get(("type", f["tn"], f["tb"], f["tl"], f["tc"]))
+        v = idx.get(("field", f["fn"], f["fb"], f["fl"], f["fc"]))
+        if t is None or v is None:
+            continue
+        want = asked.get(id(f), "0") == "1"
+        if not want and f.get("meth"):
+            continue   # rules 6.3 / 6.4 / 8.2 (promoted methods) may add the same edge
+        checked += 1
+        pos += want
+        if ((t, v) in uses) != want:
+            diffs.append({"type": f["tn"], "embedded_field": f["fn"], "at": "%s:%d:%d" % (f["fb"], f["fl"], f["fc"]),
+                          "model_rule_6_5": want, "real_graph_has_use_edge": (t, v) in uses})
+    return diffs, checked, pos
 
 
 def split_files(binary, files):
@@ -977,6 +1143,32 @@ def make_generated(rng, i, nperm):
     return p
 
 
+def all_perms(n):
+    import itertools
+    return [list(p) for p in itertools.permutations(range(n))]
+
+
+def make_mini(rng, i):
+    """a package of <= 5 declarations, run in EVERY order of its declarations (single file)
+    and in every order of a three-file split"""
+    fixed = MINI_FIXED[i] if i < len(MINI_FIXED) else None
+    g = MiniGen(rng.fork("mini%d" % i), "m%d" % i, fixed)
+    p = Prog("mini/%d" % i, "example.com/c17/m%d" % i)
+    p.gen = g
+    decls = list(enumerate(g.decls))
+    p.base = render(g.pkg, decls, 1)
+    p.variants.append(("repeat", p.pid + "/repeat", p.base[0], p.base[1]))
+    for k, order in enumerate(all_perms(len(decls))):
+        if order == list(range(len(decls))):
+            continue
+        files, layout = render(g.pkg, [decls[j] for j in order], 1)
+        p.variants.append(("decls", "%s/decls%d" % (p.pid, k), files, layout))
+    split, lay = render(g.pkg, decls, 3)
+    for k, fo in enumerate(all_perms(3)):
+        p.variants.append(("files", "%s/files%d" % (p.pid, k), [split[j] for j in fo], lay))
+    return p
+
+
 def make_disk(rng, ent, nperm, parts):
     pid, pkgpath, files, gopath = ent
     p = Prog(pid, pkgpath)
@@ -1109,7 +1301,7 @@ def replay_case(kind, p, tag, base_files, var_files, detail):
     }
 
 
-def explore(ctx, binary, rng, n_gen, nperm, n_ext, with_disk, tag="main", replay_progs=None):
+def explore(ctx, binary, rng, n_gen, nperm, n_ext, with_disk, tag="main", replay_progs=None, n_mini=0):
     """Phases 1 and 2.  Returns a dict with violations (oracle failures on the real code),
     correspondence diffs (tie), statistics."""
     quick = ctx.quick
@@ -1127,6 +1319,8 @@ def explore(ctx, binary, rng, n_gen, nperm, n_ext, with_disk, tag="main", replay
                 k += len(ent[2])
         for i in range(n_gen):
             progs.append(make_generated(rng.fork(tag), i, nperm))
+        for i in range(n_mini):
+            progs.append(make_mini(rng.fork(tag + "/mini"), i))
     gopath_env = {"GOPATH": os.path.join(vlib.REPO, "unused", "testdata"), "GO111MODULE": "off"}
 
     # ---- round 1: base + repeat + permutations
@@ -1145,7 +1339,8 @@ def explore(ctx, binary, rng, n_gen, nperm, n_ext, with_disk, tag="main", replay
 
     res = {"violations": [], "corr": [], "programs": 0, "runs": 0, "pairs": {"repeat": 0, "files": 0, "decls": 0, "ext": 0},
            "nontrivial": set(), "hist": {}, "samples": [], "skipped": [], "nodes": 0, "ext_newly_used": 0, "ext_target_was": {},
-           "iso_checked": 0, "embed_checked": 0, "build_lines": 0, "verdict_lines": 0, "ambiguous_identity": 0, "max_nodes": 0}
+           "iso_checked": 0, "embed_checked": 0, "build_lines": 0, "verdict_lines": 0, "ambiguous_identity": 0, "max_nodes": 0,
+           "r65_lines": 0, "r65_fields": 0, "r65_fields_used_by_rule": 0, "mini_programs": 0, "mini_orders": 0}
     lean_lines, lean_meta = [], []
     usable = []
     rejected = []
@@ -1194,6 +1389,13 @@ def explore(ctx, binary, rng, n_gen, nperm, n_ext, with_disk, tag="main", replay
             res["corr"].append({"id": p.pid, "what": "unused.Result is not the partition of nodes[1:] by the dumped colours", "detail": ob.get("dot_vs_result")})
         lean_lines.append("verdicts " + graph_line(ob))
         lean_meta.append(("verdicts", p, p.pid, ob))
+        rl = r65_line(ob)
+        if rl:
+            lean_lines.append(rl[0])
+            lean_meta.append(("r65", p, p.pid, (ob, rl[1])))
+        if p.pid.startswith("mini/"):
+            res["mini_programs"] += 1
+            res["mini_orders"] += sum(1 for v in p.variants if v[0] == "decls") + 1
         # the builder model (Build.lean) fed with the calls the real graph records, in a random order
         evs = ["s%d.0" % i for i in range(1, ob["n"])]
         for a, b in edges_of(ob.get("uses")):
@@ -1240,6 +1442,10 @@ def explore(ctx, binary, rng, n_gen, nperm, n_ext, with_disk, tag="main", replay
                 lean_meta.append(("iso", p, jid, None))
             lean_lines.append("verdicts " + graph_line(ov))
             lean_meta.append(("verdicts", p, jid, ov))
+            rl = r65_line(ov)
+            if rl:
+                lean_lines.append(rl[0])
+                lean_meta.append(("r65", p, jid, (ov, rl[1])))
         for (jid, files, layout, info) in p.exts:
             oe = outs[jid]
             if oe.get("type_errs"):
@@ -1306,6 +1512,17 @@ def explore(ctx, binary, rng, n_gen, nperm, n_ext, with_disk, tag="main", replay
             if got != want:
                 res["corr"].append({"id": jid, "what": "builder model run on the calls recorded by the real graph (shuffled) gives other verdicts than the real code",
                                     "differs_at": [k for k in sorted(want, key=int) if got.get(k) != want[k]][:10]})
+        elif kind == "r65":
+            res["r65_lines"] += 1
+            if not mo.startswith("wf=1 "):
+                res["corr"].append({"id": jid, "what": "struct table read off go/types rejected by the rule-6.5 model", "lean": mo})
+                continue
+            diffs, checked, posn = r65_compare(aux[0], aux[1], (mo.split() + [""])[1])
+            res["r65_fields"] += checked
+            res["r65_fields_used_by_rule"] += posn
+            if diffs:
+                res["corr"].append({"id": jid, "what": "rule 6.5 (hasExportedField): the model's reachability verdict differs from the use edge type -> embedded field of the real graph",
+                                    "fields": diffs[:6]})
         elif kind == "iso":
             res["iso_checked"] += 1
             if mo != "hyp=1 same=1":
@@ -1320,6 +1537,75 @@ def explore(ctx, binary, rng, n_gen, nperm, n_ext, with_disk, tag="main", replay
 # ============================================================================ phase 3: variants through the real binary
 KINDS = ["type param", "func", "var", "const", "type", "field", "identifier"]
 IN_TEST, EXT_TEST = "zin_test.go", "zext_test.go"
+
+
+def derived_test_decls(g, rng):
+    """Declarations for an in-package _test.go file that make objects of the package look
+    different in the test variant: types DERIVED from non-test struct types (`type fake T`: same
+    field objects, reached by objectpath through whichever type name sorts first), structs that
+    embed them, aliases of them, and helpers that use unexported fields and methods of the
+    non-test types ONLY from test code.  Names sort before (`a…`) and after (`z…`) the originals."""
+    u = g.uid
+    out = []
+    cands = [s for s in g.structs if not s.tparams]
+    for s in rng.shuffle(cands)[:3]:
+        k = u()
+        pre = rng.choice(["a", "z", "A"])
+        fake = "%sfk%d" % (pre, k)
+        out.append("type %s %s" % (fake, s.name))
+        g.hit("test_derived_type_sorting_%s" % ("after" if pre == "z" else "before_lowercase" if pre == "a" else "before_all"))
+        own = [f for f, _ in s.fields]
+        body = ["\tvar x%d %s\n\t_ = x%d\n" % (k, fake, k)]
+        for f in own:
+            if rng.chance(2, 3):
+                body.append("\t_ = x%d.%s\n" % (k, f))
+                g.hit("test_reads_field_through_derived_type")
+        if own and rng.chance(1, 2):
+            f = rng.choice(own)
+            body.append("\tvar y%d %s\n\t_ = y%d.%s\n" % (k, s.name, k, f))
+            g.hit("test_reads_field_directly")
+        ms = [m for m, _ in s.methods if m[:1].islower()]
+        if ms:
+            m = rng.choice(ms)
+            body.append("\tvar w%d %s\n\tw%d.%s()\n" % (k, s.name, k, m))
+            g.hit("test_calls_unexported_method")
+        if rng.chance(1, 2):
+            # an unexported method of a non-test type that only the test file declares and calls
+            out.append("func (r%d *%s) tm%d() {}" % (k, s.name, k))
+            body.append("\tvar tv%d %s\n\ttv%d.tm%d()\n" % (k, s.name, k, k))
+            g.hit("test_declares_method_on_non_test_type")
+        if rng.chance(1, 3):
+            # an exported one: used by its (non-test) type through rule 2.1, only in the test variant
+            out.append("func (r%d %s) TM%d() {}" % (k, s.name, k))
+            g.hit("test_declares_exported_method_on_non_test_type")
+        out.append("func CheckDerived%d() {\n%s}" % (k, "".join(body)))
+        c = rng.below(4)
+        if c == 0:
+            emb = "%sem%d" % ("a" if rng.chance(1, 2) else "z", k)
+            out.append("type %s struct {\n\t%s\n\textra%d int\n}" % (emb, fake, k))
+            sel = "\t_ = e%d.%s\n" % (k, rng.choice(own)) if own and rng.chance(2, 3) else ""
+            out.append("func CheckEmbedded%d() {\n\tvar e%d %s\n%s\t_ = e%d\n}" % (k, k, emb, sel, k))
+            g.hit("test_embeds_derived_type")
+        elif c == 1:
+            emb = "%sep%d" % ("a" if rng.chance(1, 2) else "z", k)
+            out.append("type %s struct {\n\t*%s\n}" % (emb, s.name))
+            out.append("func CheckEmbeddedPtr%d() {\n\t_ = %s{}\n}" % (k, emb))
+            g.hit("test_embeds_original_by_pointer")
+        elif c == 2:
+            al = "%sal%d" % ("a" if rng.chance(1, 2) else "z", k)
+            out.append("type %s = %s" % (al, s.name))
+            sel = "\t_ = v%d.%s\n" % (k, rng.choice(own)) if own else ""
+            out.append("func CheckAlias%d() {\n\tvar v%d %s\n%s\t_ = v%d\n}" % (k, k, al, sel, k))
+            g.hit("test_aliases_original")
+    if rng.chance(1, 2):
+        # an interface only the tests know: every non-test type with these (unexported) methods
+        # implements it (rule 8.2) and uses them — in the test variant only
+        k = u()
+        ms = sorted(set(rng.choice(POOL[:4]) for _ in range(1 + rng.below(2))))
+        out.append("type tIf%d interface {\n%s\n}" % (k, "\n".join("\t%s()" % m for m in ms)))
+        out.append("func CheckIface%d() {\n\tvar i%d tIf%d\n\t_ = i%d\n}" % (k, k, k, k))
+        g.hit("test_declares_interface_implemented_by_non_test_types")
+    return out
 
 
 def make_module(rng, n_pkgs):
@@ -1345,6 +1631,9 @@ def make_module(rng, n_pkgs):
             t += "func CheckSink%d() {\n\t%s = 1\n}\n" % (u(), sk)    # rule 4.9: sinks declared in test files
             if g.r.chance(1, 2):
                 t += "\nvar unusedIn%d int\n" % u()
+            dd = derived_test_decls(g, g.r.fork("derived"))
+            if dd:
+                t += "\n" + "\n\n".join(dd) + "\n"
             files["p%d/%s" % (i, IN_TEST)] = t
         if mode in (1, 2):
             exp = [f.name for f in g.funcs if f.name[:1].isupper()]
@@ -1529,6 +1818,207 @@ def merge_phase(ctx, sc, c17run, rng, n_pkgs, files=None, both=True):
     return out
 
 
+# ============================================================================ phase 4: graph-level merge (SerializedGraph.Merge)
+def vmerge_job(rng, i, size):
+    """one generated package with its variants (plain; with in-package tests; external test
+    package) and the merge orders to run through the real SerializedGraph.Merge"""
+    g = Gen17(rng.fork("gpkg%d" % i), size=size, pkg="p%d" % i)
+    fl, _ = render(g.pkg, list(enumerate(g.decls)), 1 + i % 2)
+    plain = [{"name": n, "src": t} for n, t in fl]
+    path = "example.com/c17/p%d" % i
+    u = g.uid
+    t = "package p%d\n\n" % i
+    t += "func CheckIn%d() {\n%s}\n\n" % (u(), g.body(2))
+    dd = derived_test_decls(g, rng.fork("derived%d" % i))
+    t += "\n\n".join(dd) + "\n"
+    variants = [{"tag": "plain", "pkgpath": path, "files": plain},
+                {"tag": "test", "pkgpath": path, "register": True, "files": plain + [{"name": IN_TEST, "src": t}]}]
+    if i % 3 != 0:
+        exp = [f.name for f in g.funcs if f.name[:1].isupper()]
+        x = "package p%d_test\n\nimport \"%s\"\n\n" % (i, path)
+        x += "func CheckExt%d() {\n%s\textUsed%d()\n}\n\n" % (u(), "".join("\t_ = p%d.%s\n" % (i, n) for n in exp[:3]), i)
+        x += "func extUsed%d() {}\n\nfunc extUnused%d() {}\n\ntype extT%d struct {\n\ta%d int\n}\n" % (i, u(), u(), u())
+        if not exp:
+            x = x.replace("import \"%s\"\n\n" % path, "")
+        variants.append({"tag": "ext", "pkgpath": path + "_test", "files": [{"name": EXT_TEST, "src": x}]})
+    k = len(variants)
+    full = all_perms(k)
+    orders = full + [[j] for j in range(k)] + [[0, 0], list(range(k)) * 2, [1, 0, 1]]
+    return {"id": "vmerge/%d" % i, "variants": variants, "orders": orders}, g, len(full)
+
+
+def node_key(nd):
+    return (nd["k"], nd["n"], nd["b"], nd["l"], nd["c"])
+
+
+def vmerge_eval(ctx, jobs, outs):
+    """tie: the model's `mergeAll` of the real raw graphs must be, node for node and edge for
+    edge, the graph the real Merge built, and the real colouring must be the model's; the
+    hypotheses of the theorems (variantOk, pathsConsistent) are probed on the real graphs;
+    the union colouring (`gmerge_used_iff`) must give the real Used positions.
+    oracle: an object reported by the merged graph is Used in no merged variant; all orders of
+    the same variants, and merging variants repeatedly, report the same objects."""
+    corr, viol = [], []
+    st = {"packages": 0, "variant_graphs": 0, "merges": 0, "orders_per_package": {}, "nodes_merged_max": 0,
+          "objects_used_only_in_a_test_variant": 0, "objects_whose_objectpath_differs_between_variants": 0,
+          "nodes_with_path": 0, "merged_nodes_without_objectpath(identified_by_position_only)": 0, "reported_by_merge": 0}
+    lines, meta = [], []
+    for jb, g, nfull in jobs:
+        o = outs[jb["id"]]
+        if o.get("err"):
+            raise vlib.HarnessError("c17run failed on %s: %s" % (jb["id"], o["err"]))
+        vs = o.get("variants") or []
+        for v in vs:
+            if v.get("type_errs"):
+                raise vlib.HarnessError("generated variant %s/%s does not type-check: %s" % (jb["id"], v["tag"], v["type_errs"][:2]))
+            if v.get("err"):
+                raise vlib.HarnessError("c17run failed on %s/%s: %s" % (jb["id"], v["tag"], v["err"]))
+            if not v.get("ids_ok"):
+                corr.append({"id": jb["id"], "variant": v["tag"], "what": "unused.Graph: node i does not carry id i (assumption of the Merge model)"})
+        st["packages"] += 1
+        st["variant_graphs"] += len(vs)
+        st["orders_per_package"][str(len(jb["orders"]))] = st["orders_per_package"].get(str(len(jb["orders"])), 0) + 1
+        paths, poss = {"": 0}, {"": 0}
+        enc = []
+        for v in vs:
+            ids = ["0.0"]
+            for nd in v.get("nodes") or []:
+                a = paths.setdefault(nd.get("p", ""), len(paths))
+                b = poss.setdefault(nd.get("q", ""), len(poss))
+                ids.append("%d.%d" % (a, b))
+                st["nodes_with_path"] += 1 if a else 0
+            enc.append("%d %s %s %s" % (v["n"], ",".join(ids), v.get("uses") or "-", v.get("owns") or "-"))
+        # statistics on what the population exercises
+        by_pos = {}
+        for v in vs:
+            for nd in v.get("nodes") or []:
+                by_pos.setdefault(nd.get("q", ""), set()).add(nd.get("p", ""))
+        st["objects_whose_objectpath_differs_between_variants"] += sum(1 for q, ps in by_pos.items() if q and len(ps - {""}) > 1)
+        if len(vs) >= 2:
+            plain_unused = set(v for v in (vs[0].get("unused") or []))
+            st["objects_used_only_in_a_test_variant"] += sum(1 for x in plain_unused if x in set(vs[1].get("used") or []))
+        for m in o.get("merges") or []:
+            if m.get("err"):
+                corr.append({"id": jb["id"], "order": m["order"], "what": "the real Merge failed", "err": m["err"]})
+                continue
+            lines.append("gmerge %d %s" % (len(m["order"]), " ".join(enc[j] for j in m["order"])))
+            meta.append((jb, o, m, paths, poss))
+    model = run_model_par(ctx, lines, nproc=4)
+    for (jb, o, m, paths, poss), line, mo in zip(meta, lines, model):
+        st["merges"] += 1
+        st["nodes_merged_max"] = max(st["nodes_merged_max"], m["n"])
+        vs = o["variants"]
+        tagorder = [vs[j]["tag"] for j in m["order"]]
+        if mo in ("bad-op", "panic"):
+            corr.append({"id": jb["id"], "order": tagorder, "what": "the Merge model rejects the real variant graphs", "lean": mo})
+            continue
+        f = dict(t.split("=", 1) for t in mo.split())
+        if f.get("ok") != "1" or f.get("pc") != "1":
+            corr.append({"id": jb["id"], "order": tagorder, "what": "hypotheses of the gmerge_* theorems fail on the real variant graphs "
+                         "(variantOk: root without identity, every node with column, edges in range; pathsConsistent: equal object paths => equal positions)",
+                         "variantOk": f.get("ok"), "pathsConsistent": f.get("pc")})
+        real_ids = ["0.0"] + ["%d.%d" % (paths.get(nd.get("p", ""), -1), poss.get(nd.get("q", ""), -1)) for nd in m.get("nodes") or []]
+        real = {"n": str(m["n"]), "ids": ",".join(real_ids), "uses": m.get("uses") or "-", "owns": m.get("owns") or "-", "col": m.get("colors") or ""}
+        dif = [k for k in ("n", "ids", "uses", "owns", "col") if f.get(k, "") != real[k]]
+        if dif:
+            corr.append({"id": jb["id"], "order": tagorder, "what": "model mergeAll of the real variant graphs != graph built by the real SerializedGraph.Merge (tie X)",
+                         "differs_in": dif, "model": {k: f.get(k, "")[:160] for k in dif}, "real": {k: real[k][:160] for k in dif}})
+        if m.get("res_err"):
+            corr.append({"id": jb["id"], "order": tagorder, "what": "Results() of the merged graph is not the partition of its nodes by the colours of Dot()", "detail": m["res_err"]})
+        # merge-then-colour = colouring of the union of the use relations (gmerge_used_iff), on the real colours
+        un = set(int(x) for x in f.get("union", "").split(",") if x) - {0}
+        real_used_pos = set(poss.get(nd.get("q", ""), -1) for nd, c in zip(m.get("nodes") or [], m.get("colors") or "") if c == "U" and nd["k"] != "root")
+        if un != real_used_pos:
+            corr.append({"id": jb["id"], "order": tagorder, "what": "positions Used in the real merged graph != positions reachable in the union of the variants' use relations",
+                         "only_union": sorted(un - real_used_pos)[:8], "only_real": sorted(real_used_pos - un)[:8]})
+        # ---- oracle on the real outputs
+        reported = sorted(node_key(nd) for nd, c in zip(m.get("nodes") or [], m.get("colors") or "") if c == "X")
+        m["_reported"] = reported
+        m["_used"] = sorted(set(node_key(nd) for nd, c in zip(m.get("nodes") or [], m.get("colors") or "") if c == "U" and nd["k"] != "root"))
+        if len(m["order"]) == len(vs) and sorted(m["order"]) == list(range(len(vs))) and m["order"] == sorted(m["order"]):
+            st["reported_by_merge"] += len(reported)
+            dedup = sum(1 for nd in m.get("nodes") or [] if nd["k"] != "root" and not nd.get("p"))
+            st["merged_nodes_without_objectpath(identified_by_position_only)"] += dedup
+        for key in reported:
+            ks = "%s %s %s:%d:%d" % key
+            for j in sorted(set(m["order"])):
+                if ks in set(vs[j].get("used") or []):
+                    viol.append(("vmerge_reported_but_used", jb, {
+                        "object": ks, "reported_by": "Results() of the graph merged in the order %s" % tagorder,
+                        "used_in_variant": vs[j]["tag"], "merged_nodes_at_that_position": sum(1 for nd in m["nodes"] if node_key(nd) == key)}))
+                    break
+    # order independence / idempotence of the real merge
+    for jb, g, nfull in jobs:
+        o = outs[jb["id"]]
+        ms = [m for m in (o.get("merges") or []) if "_reported" in m]
+        k = len(o["variants"])
+        groups = {}
+        for m in ms:
+            groups.setdefault(tuple(sorted(set(m["order"]))), []).append(m)
+        for members, grp in groups.items():
+            first = grp[0]
+            for m in grp[1:]:
+                if m["_reported"] != first["_reported"] or m["_used"] != first["_used"]:
+                    a, b = set(first["_reported"]), set(m["_reported"])
+                    viol.append(("vmerge_order", jb, {
+                        "orders": [[o["variants"][j]["tag"] for j in first["order"]], [o["variants"][j]["tag"] for j in m["order"]]],
+                        "reported_only_by_first": ["%s %s %s:%d:%d" % x for x in sorted(a - b)][:6],
+                        "reported_only_by_second": ["%s %s %s:%d:%d" % x for x in sorted(b - a)][:6],
+                        "used_differs": m["_used"] != first["_used"]}))
+                    break
+    return corr, viol, st
+
+
+def vmerge_corpus_jobs():
+    """corpus packages that have _test.go files, as variant-merge jobs (run first)"""
+    out = []
+    if not os.path.isdir(CORPUS):
+        return out
+    for d in sorted(os.listdir(CORPUS)):
+        p = os.path.join(CORPUS, d)
+        if not os.path.isdir(p):
+            continue
+        fs = sorted(f for f in os.listdir(p) if f.endswith(".go"))
+        tests = [f for f in fs if f.endswith("_test.go")]
+        if not tests:
+            continue
+        src = {f: open(os.path.join(p, f)).read() for f in fs}
+        plain = [{"name": f, "src": src[f]} for f in fs if f not in tests]
+        ext = [f for f in tests if re.search(r"^package \w+_test\b", src[f], re.M)]
+        intest = [f for f in tests if f not in ext]
+        path = "example.com/" + d
+        variants = [{"tag": "plain", "pkgpath": path, "files": plain}]
+        if intest:
+            variants.append({"tag": "test", "pkgpath": path, "register": True, "files": plain + [{"name": f, "src": src[f]} for f in intest]})
+        if ext:
+            variants.append({"tag": "ext", "pkgpath": path + "_test", "files": [{"name": f, "src": src[f]} for f in ext]})
+        k = len(variants)
+        full = all_perms(k)
+        out.append(({"id": "vmerge/corpus_" + d, "variants": variants, "orders": full + [[j] for j in range(k)] + [[0, 0], list(range(k)) * 2]}, None, len(full)))
+    return out
+
+
+def vmerge_phase(ctx, binary, rng, n_pkgs, jobs=None):
+    if jobs is None:
+        jobs = vmerge_corpus_jobs() + [vmerge_job(rng, i, 2 + i % 7) for i in range(n_pkgs)]
+    outs = run_jobs(ctx, binary, [j for j, _, _ in jobs], None, 4)
+    corr, viol, st = vmerge_eval(ctx, jobs, outs)
+    hist = {}
+    for _, g, _ in jobs:
+        if g is not None:
+            for k, v in g.hist.items():
+                hist[k] = hist.get(k, 0) + v
+    return {"corr": corr, "violations": viol, "stats": st, "hist": hist}
+
+
+def vmerge_replay_case(kind, jb, detail):
+    return {"kind": "vmerge", "what": kind, "job": jb, "detail": detail,
+            "how_to_replay": "./check C17 --replay <this file>  — runs harness/cmd/c17run on `job`: every variant through the real unused.Analyzer "
+                             "(verdict per variant) and the real unused.Graph, then the graphs merged by the real SerializedGraph.Merge in the listed orders; "
+                             "an object must not be reported by the merged graph when a merged variant uses it, and all orders must report the same objects. "
+                             "By hand: write the files of the `test` variant into a directory of a module and run `go run honnef.co/go/tools/internal/cmd/unused ./...`"}
+
+
 # ============================================================================ driver
 def replay_progs_from(case):
     p = Prog(case["id"], case["pkgpath"])
@@ -1566,6 +2056,11 @@ def run_replay(ctx, binary, sc):
                 if lost:
                     ctx.violation("replay_" + os.path.basename(ctx.replay), dict(case, now={"lost": lost[:20]}),
                                   text="C17 replay: objects used before the added reference are not used after it: %s" % lost[:4])
+        elif case.get("kind") == "vmerge":
+            vr = vmerge_phase(ctx, binary, None, 0, jobs=[(case["job"], None, 0)])
+            print("replay graph merge %s: %s" % (case["job"]["id"], json.dumps(vr["stats"])))
+            for (kind, jb, detail) in vr["violations"][:3]:
+                ctx.violation("replay_" + os.path.basename(ctx.replay), dict(case, now=detail), text="C17 replay: graph merge: %s: %s" % (kind, json.dumps(detail)[:300]))
         elif case.get("kind") == "merge":
             m = merge_phase(ctx, sc, binary, None, 0, files=case["module_files"])
             print("replay merge: %s" % json.dumps(m["stats"]))
@@ -1590,41 +2085,54 @@ def run(ctx):
         return run_replay(ctx, binary, sc)
     rng = vlib.SplitMix(ctx.seed).fork("c17")
     quick = ctx.quick
-    n_gen, nperm, n_ext, n_var = (50, 2, 2, 20) if quick else (800, 3, 4, 150)
+    n_gen, nperm, n_ext, n_var, n_mini, n_vm = (50, 2, 2, 20, 8, 24) if quick else (800, 3, 4, 150, 30, 200)
 
-    with ThreadPoolExecutor(max_workers=2) as ex:
+    with ThreadPoolExecutor(max_workers=3) as ex:
         fm = ex.submit(merge_phase, ctx, sc, binary, rng.fork("variants"), n_var, None, not quick)
-        res = explore(ctx, binary, rng, n_gen, nperm, n_ext, True)
+        fv = ex.submit(vmerge_phase, ctx, binary, rng.fork("vmerge"), n_vm)
+        res = explore(ctx, binary, rng, n_gen, nperm, n_ext, True, n_mini=n_mini)
         phases["in_process_done"] = round(time.time() - t0, 1)
+        vres = fv.result()
+        phases["graph_merge_done"] = round(time.time() - t0, 1)
         mres = fm.result()
     phases["variants_done"] = round(time.time() - t0, 1)
     ctx.coverage["phase_seconds_since_start"] = phases
 
     violations = list(res["violations"])
-    corr = list(res["corr"]) + [dict(c, phase="variants") for c in mres["corr"]]
+    vviol = list(vres["violations"])
+    corr = list(res["corr"]) + [dict(c, phase="variants") for c in mres["corr"]] + [dict(c, phase="graph-merge") for c in vres["corr"]]
     searched = None
-    if not violations and not mres["violations"] and (corr or not lean_ok):
+    if not violations and not mres["violations"] and not vviol and (corr or not lean_ok):
         # violation search: the tie or a proof broke but every oracle held — look harder
-        sr = explore(ctx, binary, rng.fork("search"), n_gen * 2, nperm + 1, n_ext + 2, False, tag="search")
+        sr = explore(ctx, binary, rng.fork("search"), n_gen * 2, nperm + 1, n_ext + 2, False, tag="search", n_mini=n_mini * 3)
         sm = merge_phase(ctx, sc, binary, rng.fork("variants-search"), n_var * 2)
+        sv = vmerge_phase(ctx, binary, rng.fork("vmerge-search"), n_vm * 3)
         violations += sr["violations"]
         mres["violations"] += sm["violations"]
-        searched = {"programs": sr["programs"], "runs": sr["runs"], "variant_packages": n_var * 2}
+        vviol += sv["violations"]
+        searched = {"programs": sr["programs"], "runs": sr["runs"], "variant_packages": n_var * 2, "graph_merge_packages": n_vm * 3,
+                    "mini_programs_in_all_orders": n_mini * 3}
 
     hist = dict(res["hist"])
-    for k, v in mres["hist"].items():
+    for k, v in list(mres["hist"].items()) + list(vres["hist"].items()):
         hist[k] = hist.get(k, 0) + v
     ctx.coverage.update({
         "programs": res["programs"],
         "runs_of_real_unused_in_process": res["runs"],
         "pairs_compared": res["pairs"],
-        "evaluations": sum(res["pairs"].values()) + mres["stats"]["with_tests"]["reported"] + (mres["stats"]["without_tests"] or {}).get("reported", 0),
+        "evaluations": sum(res["pairs"].values()) + mres["stats"]["with_tests"]["reported"] + (mres["stats"]["without_tests"] or {}).get("reported", 0)
+                       + vres["stats"]["merges"],
         "distinct_nontrivial": len(res["nontrivial"]),
         "rule": "one evaluation = one (base, permuted/repeated/extended copy) pair run through the real unused.Analyzer and compared, or one U1000 line "
-                "of the real binary checked against all variants; non-trivial program = at least 6 nodes, >=1 reported and >=1 used unexported object",
+                "of the real binary checked against all variants, or one real SerializedGraph.Merge of a package's variants in one order; non-trivial program = at least 6 nodes, >=1 reported and >=1 used unexported object",
         "lean_lines": {"verdicts(model Results vs real colours)": res["verdict_lines"], "iso(real graphs isomorphic, hypotheses of results_perm_invariant)": res["iso_checked"],
                        "embed(real extended graph is a super-graph, hypotheses of used_mono_embed)": res["embed_checked"],
-                       "build(builder model on the recorded calls in random order vs real colours)": res["build_lines"]},
+                       "build(builder model on the recorded calls in random order vs real colours)": res["build_lines"],
+                       "r65(rule 6.5 reachability verdict vs use edge type->embedded field of the real graph)": res["r65_lines"],
+                       "gmerge(model mergeAll of the real variant graphs vs the real merged graph, hypotheses probes, union colouring)": vres["stats"]["merges"]},
+        "rule_6_5": {"embedded_fields_checked": res["r65_fields"], "of_them_used_by_the_rule": res["r65_fields_used_by_rule"]},
+        "all_orders": {"mini_programs(<=5 declarations)": res["mini_programs"], "declaration_orders_run": res["mini_orders"]},
+        "graph_level_merge": vres["stats"],
         "monotone": {"extensions": res["pairs"]["ext"], "objects_newly_used_by_an_extension": res["ext_newly_used"], "target_verdict_before": res["ext_target_was"]},
         "variants_through_real_binary": mres["stats"],
         "variant_modes(0 in-package,1 both,2 external)": {str(m): list(mres["modes"].values()).count(m) for m in (0, 1, 2)},
@@ -1643,7 +2151,14 @@ def run(ctx):
         "go/types, go/parser, go/packages and the runner's construction of package variants are trusted; the in-process runs hand the analyzer the files in the chosen order",
         "identity of an object across permuted copies: (declaration, line in declaration, column, kind, name) for generated packages, unchanged positions for packages on disk (AST-level permutation)",
         "Go's quieten closure has no visited bit; the model's has — identical whenever the Go code terminates",
-        "compiled Lean driver evaluates Results / iso / embed / merge on dumps (kernel-checked theorems incl. soundness of the two checkers, compiled evaluation)",
+        "compiled Lean driver evaluates Results / iso / embed / merge / gmerge / r65 on dumps (kernel-checked theorems incl. soundness of the two checkers, compiled evaluation)",
+        "graph-level merge: hypotheses of the gmerge_* theorems (root without identity, every other node with a full position, edges in range, equal object paths => equal "
+        "positions) are world assumptions, PROBED on the raw graphs of every merged variant (a failed probe is reported as a correspondence diff); the two Go maps of "
+        "SerializedGraph are modelled by findIdx? on the node list (keys are written only when a node is created and never overwritten)",
+        "rule 6.5: *types.Struct identity is pointer identity; the struct table is read off go/types by the harness (own dereference code, not the repository's); the model's "
+        "`true` must be a use edge of the real graph, its `false` the absence of one unless the embedded type has methods (rules 6.3/6.4/8.2 may add the same edge)",
+        "in-process variants: plain = non-test files, test = plain + in-package _test.go, ext = external test package importing the test variant; the real go/packages "
+        "loader of internal/cmd/unused (and its testmain package) is not run",
     ]
 
     known = vlib.load_known_findings("C17")
@@ -1664,6 +2179,19 @@ def run(ctx):
     for v in mres["violations"][:4]:
         name = "c17_merge_%s_%d_%s.json" % (v["key(pkg,base,line,name)"][1].replace(".", "_"), v["key(pkg,base,line,name)"][2], v["key(pkg,base,line,name)"][0].split("/")[-1])
         ctx.violation(name, v, text="C17 merge: %s is reported by `staticcheck` although variant %s of its package uses it" % (v["key(pkg,base,line,name)"], v["used_in_variant"]))
+    seen_v = set()
+    for (kind, jb, detail) in vviol:
+        if (kind, jb["id"]) in seen_v or len(seen_v) >= 6:
+            continue
+        seen_v.add((kind, jb["id"]))
+        name = "c17_%s_%s.json" % (kind, jb["id"].replace("/", "_"))
+        if kind == "vmerge_reported_but_used":
+            text = "C17 graph merge: %s: `%s` is reported by the merged graph (%s) although variant %s uses it" % (
+                jb["id"], detail["object"], detail["reported_by"], detail["used_in_variant"])
+        else:
+            text = "C17 graph merge: %s: merging the same variants in the orders %s reports different objects: %s / %s" % (
+                jb["id"], detail["orders"], detail["reported_only_by_first"][:3], detail["reported_only_by_second"][:3])
+        ctx.violation(name, vmerge_replay_case(kind, jb, detail), text=text)
     if len(violations) > n_written:
         ctx.notes.append("%d further failing pairs not written as replays" % (len(violations) - n_written))
     if not ctx.violations and (corr or not lean_ok):
@@ -1679,17 +2207,29 @@ def run(ctx):
 META = {
     "level": "proof",
     "technique": "Lean 4 theorems over a model of the unused graph builder (node/addUse/addOwned/use/see as a fold over events), colouring "
-                 "(color/colorAndQuieten/Results) and the variant merge of lintcmd.lint; executable correspondence against the real unused.Analyzer "
-                 "(in-process, dumped graphs) and the real staticcheck binary; proved-sound Lean checkers for the theorems' hypotheses on real graphs",
+                 "(color/colorAndQuieten/Results), the variant merge of lintcmd.lint, the graph-level merge SerializedGraph.Merge (transliterated: "
+                 "lookup by path else by position, remapping, unioned edge lists) and rule 6.5 of namedType (hasExportedField); executable correspondence "
+                 "against the real unused.Analyzer / unused.Graph / SerializedGraph.Merge (in-process, graphs read back) and the real staticcheck "
+                 "binary; proved-sound Lean checkers and executable hypothesis probes on real graphs",
     "text": "Proved for all graphs: a node's verdict depends only on root-reachability over uses and on lying below an unseen owner, hence is invariant under "
             "any renumbering of nodes and any order/multiplicity of edges (results_perm_invariant); more use edges never shrink Used (used_mono_embed, "
             "add_uses_monotone). Proved for all event lists: the graph built by node/addUse/addOwned/use/see gives every object a verdict that depends only on the "
             "set of events (build_perm_invariant), and appending use events keeps used objects used (build_add_use_monotone). Proved for all variant lists: a key is "
-            "reported iff some enabled variant has it unused and no variant has it used, independent of variant order (reported_iff, merge_order_independent). "
-            "Explored, not proved: that the AST walk emits the same events for every order of files/declarations — checked per program by running the real analyzer on "
-            "permuted, repeated and single-reference-extended copies (oracle on the reported sets; the real graphs must satisfy the theorems' hypotheses as evaluated by "
-            "the proved Lean checkers), and that the runner's variants merge as modelled — checked against the real `staticcheck` with and without tests.",
-    "note": "Trusted: Lean kernel; compiled c17driver; harness/cmd/c17run + internal/c17pkg; python generator/identity mapping; go/types, go/packages. "
-            "The AST walk (≈1.1 kLoC) and implements.go are outside the model and reached only through the runs.",
+            "reported by lintcmd iff some enabled variant has it unused and no variant has it used, independent of variant order (reported_iff, merge_order_independent). "
+            "Proved for all lists of variant graphs analysed from source (root without identity, every node with a full position, equal object paths imply equal "
+            "positions — probed on every real input): SerializedGraph.Merge yields one node per position (gmerge_pos_unique); a merged node is Used iff its position is "
+            "reachable in the union of the variants' use relations (gmerge_used_iff, unionUsed_iff), so the Used positions depend only on the set of variants "
+            "(gmerge_set_invariant: commutative, associative, idempotent), an object Used in any variant is Used in the merge (gmerge_used_of_variant_used) and a node not "
+            "Used in the merge is Used in no variant (gmerge_reported_only_if_unused_everywhere). Proved for all struct tables: rule 6.5's hasExportedField answers true iff "
+            "a struct with an exported field is reachable over embedded fields without touching the declaring struct (rule65_iff), independent of field order "
+            "(rule65_field_order_invariant) and of declaration order (rule65_calls_perm); negative examples show a per-graph memo and a path-only lookup break this. "
+            "Explored, not proved: that the rest of the AST walk emits the same events for every order of files/declarations — checked per program by running the real "
+            "analyzer on permuted, repeated and single-reference-extended copies (every order for programs of <= 5 declarations around cycles of embedded structs, sampled "
+            "beyond; the real graphs must satisfy the theorems' hypotheses as evaluated by the proved Lean checkers), and that the runner's variants merge as modelled — "
+            "checked against the real `staticcheck` with and without tests and against the real SerializedGraph.Merge in every order of the variants.",
+    "note": "Trusted: Lean kernel; compiled c17driver; harness/cmd/c17run + internal/c17pkg (reads unexported fields of unused.Node / SerializedGraph through "
+            "reflect+unsafe, extracts the struct table from go/types); python generator/identity mapping; go/types, go/packages, objectpath. "
+            "The AST walk other than rule 6.5 (≈1.1 kLoC) and implements.go are outside the model and reached only through the runs; internal/cmd/unused itself "
+            "(loader + printing) is not run, its Merge/Results calls are.",
     "design_ref": "DESIGN.md section 5, C17",
 }
